@@ -359,3 +359,9 @@ func Dominates(a, b ssa.Instruction) bool {
 	}
 	return ba.Dominates(bb)
 }
+
+// StructOf returns the struct underlying t (through one pointer), or nil.
+func StructOf(t types.Type) *types.Struct { return structOf(t) }
+
+// NamedOf returns the name of the named type t denotes (through pointers), or "".
+func NamedOf(t types.Type) string { return namedOf(t) }
